@@ -343,6 +343,16 @@ class World:
                 if mixin and rng.random() < 0.3:
                     bases.insert(0, mixin)
                     shape.append('mixin')
+                if rng.random() < 0.25:
+                    # a SECoP feature mixin (a class with Feature as a direct base) in front of or behind the module class
+                    from frappy.modulebase import Feature
+                    self.uid += 1
+                    feat = type(f'HasVerifFeature{self.uid}', (Feature,), {'__module__': __name__})
+                    if rng.random() < 0.6:
+                        bases.insert(0, feat)
+                    else:
+                        bases.append(feat)
+                    shape.append('feature')
                 if pmixin and rng.random() < 0.4:
                     pm = pmixin
                     if rng.random() < 0.4:
@@ -398,6 +408,17 @@ class World:
                 if not frame(('instantiate', ilab), ilab):
                     return
                 s = snaps[ilab]
+                # the exported features are those of the class itself, whatever was created before (independent model:
+                # the classes of the MRO that have Feature as a direct base)
+                from frappy.modulebase import Feature
+                want = sorted(c.__name__ for c in cls.__mro__ if Feature in c.__bases__)
+                got = sorted(m.exportProperties().get('features', []))
+                r.count('feature_lists_checked')
+                if want:
+                    r.count('feature_lists_checked_nonempty')
+                if got != want:
+                    r.violation('C09/instance-features-differ-from-class', f'{ilab} of {clab} exports the features {got}, its class has {want}', {'program': log})
+                    return
                 r.count('later_instance_checks')
                 if cfgkey in pristine and pristine[cfgkey] != s:
                     a, b = json.loads(pristine[cfgkey]), json.loads(s)
